@@ -201,6 +201,10 @@ func (tic *TermInCommittee) startTerm(canBeFirstLeader bool) {
 		tic.logger.Info("LHMSG SEND PREPREPARE FAILED - %s", err)
 	}
 
+	// the leader's own weight may already be a quorum (no PREPARE would ever arrive to trigger the check)
+	if err := tic.checkPreparedLocally(currentHV.Height(), currentHV.View(), blockHash); err != nil {
+		tic.logger.Debug("checkPreparedLocally: err=%v", err)
+	}
 }
 
 // update view and reset election trigger
@@ -354,6 +358,11 @@ func (tic *TermInCommittee) onElectedByViewChange(view primitives.View, viewChan
 		nvm.BlockHeight(), nvm.View(), Str(nvm.SenderMemberId()))
 	if err := tic.sendConsensusMessage(nvm); err != nil {
 		tic.logger.Info("LHMSG SEND NEW_VIEW FAILED - %s", err)
+	}
+
+	// the leader's own weight may already be a quorum (no PREPARE would ever arrive to trigger the check)
+	if err := tic.checkPreparedLocally(tic.State.Height(), view, blockHash); err != nil {
+		tic.logger.Debug("checkPreparedLocally: err=%v", err)
 	}
 }
 
